@@ -25,6 +25,7 @@ type Atom struct {
 	Vals    []int64 // Enum: the constants, in order; a final implicit value "other"
 	N       int
 	History bool // records the outcome of a test when it was made; never widened by stores/calls/windows
+	Closed  bool // Enum: the term only ever holds the listed constants (justified by a separate writer check); "other" is infeasible
 	Labels  []string
 	dep     *Term // union of the dependencies of every program term matched to A or B so far
 }
@@ -83,6 +84,12 @@ func NewSpace(atoms ...*Atom) *Space {
 	}
 	sp.Size = sz
 	sp.consistent = sp.computeConsistent()
+	for i, a := range atoms {
+		if a.Kind == Enum && a.Closed {
+			all := uint32(1)<<uint(a.N) - 1
+			sp.consistent = sp.Filter(sp.consistent, i, all&^(1<<uint(a.N-1)))
+		}
+	}
 	return sp
 }
 
